@@ -3,7 +3,7 @@ import os, re, subprocess, time
 import common
 
 LEAN_MODULES = ['OpusProps.C11']
-GEN = []
+GEN = ['CtlConsts']
 SOURCES = ['src/opus_encoder.c', 'src/opus_decoder.c', 'src/opus_multistream_encoder.c',
            'src/opus_multistream_decoder.c', 'src/opus_multistream.c', 'src/opus_projection_encoder.c',
            'src/opus_projection_decoder.c', 'celt/celt_encoder.c', 'celt/celt_decoder.c',
@@ -36,7 +36,7 @@ REQUIRED_THEOREMS = ['OpusProps.C11.' + n for n in (
     'set_get', 'set_get_decoder', 'set_get_multistream', 'bandwidth_reported_after_frame',
     'reject_unchanged', 'application_locked_after_first_frame', 'reject_unchanged_decoder',
     'reject_unchanged_multistream', 'reject_unchanged_ms_decoder',
-    'ctl_inv', 'ctl_inv_decoder', 'ctl_inv_multistream', 'create_rejects', 'create_rejects_multistream',
+    'constants_agree', 'ctl_inv', 'ctl_inv_decoder', 'ctl_inv_multistream', 'create_rejects', 'create_rejects_multistream',
     'frame_size_select_spec', 'honour_duration', 'honour_channels', 'honour_channels_midstream',
     'honour_bandwidth', 'lowdelay_celt_only', 'short_frames_celt_only', 'encode_keeps_inv')]
 UNPROVED = [
@@ -83,9 +83,9 @@ def ties(ctx):
     out.append(common.run_tie('ctl-funcs', [h, 'funcs'], env=_ENV))
     out.append(common.run_tie('ctl-create', [h, 'create', '0' if q else '1'], env=_ENV))
     out.append(common.run_tie('ctl-grid', [h, 'grid', '0' if q else '1'], env=_ENV))
-    out.append(common.run_tie('ctl-rand', [h, 'rand', str(ctx.seed), '400' if q else '6000'], env=_ENV))
-    out.append(common.run_tie('ctl-chain', [h, 'chain', str(ctx.seed), '250' if q else '4000'], env=_ENV))
-    out.append(common.run_tie('ctl-honour', [h, 'honour', str(ctx.seed), '700' if q else '12000'], env=_ENV))
+    out.append(common.run_tie('ctl-rand', [h, 'rand', str(ctx.seed), '3000' if q else '40000'], env=_ENV))
+    out.append(common.run_tie('ctl-chain', [h, 'chain', str(ctx.seed), '2000' if q else '25000'], env=_ENV))
+    out.append(common.run_tie('ctl-honour', [h, 'honour', str(ctx.seed), '6000' if q else '80000'], env=_ENV))
     return out
 
 
@@ -216,6 +216,13 @@ def _create_violation(inp, outp):
     m = re.search(r'live=(\d+)', outp)
     if m and m.group(1) != '0':
         return ('ctl-create', inp, 'live=0', outp, 'memory still allocated after a failed create / after destroy (leak)')
+    if tok[2] in ('encinit', 'decinit'):
+        fs, ch = int(tok[3]), int(tok[4])
+        legal = fs in (8000, 12000, 16000, 24000, 48000) and ch in (1, 2) and (tok[2] == 'decinit' or int(tok[5]) in (2048, 2049, 2051))
+        exp = 'OK' if legal else 'BAD_ARG'
+        if outp.split()[0] != exp:
+            return ('ctl-create', inp, exp, outp, 'init must accept exactly the documented rates/channels/applications')
+        return None
     if tok[2] in ('enc', 'dec'):
         fs, ch = int(tok[3]), int(tok[4])
         legal = fs in (8000, 12000, 16000, 24000, 48000) and ch in (1, 2)
@@ -280,7 +287,7 @@ def search(ctx):
     wit = []
     samples = []
     seen = set()
-    runs = [[h, 'grid', '0' if ctx.quick else '1'], [h, 'rand', str(ctx.seed + 1000), '300' if ctx.quick else '4000'],
+    runs = [[h, 'grid', '0' if ctx.quick else '1'], [h, 'rand', str(ctx.seed + 1000), '2000' if ctx.quick else '20000'],
             [h, 'create', '0' if ctx.quick else '1']]
     for cmd in runs:
         for inp, outp in _run_lines(cmd):
